@@ -44,6 +44,8 @@ def _leaf(fam):
         st.tuples(st.just("update"), t, st.lists(st.tuples(n, _val), min_size=1, max_size=3)),
         st.tuples(st.just("trigger"), t, st.lists(st.integers(0, 3), min_size=1, max_size=3, unique=True)),
         st.tuples(st.just("event"), t, st.sampled_from(["set", "update"])),
+        # the Event fired at class level through a subclass that inherits it (the instances belong to the base class)
+        st.tuples(st.just("cls_event"), t, st.sampled_from(["set", "update", "trigger"])),
         st.tuples(st.just("slot"), t, st.sampled_from(["bounds", "doc"]), st.integers(0, 3)),
     ).map(list)
 
@@ -261,6 +263,19 @@ def execute(case):
             model.set(t, NAMES[node[2]], v, exp)
             setattr(obj, NAMES[node[2]], v)
             window("set", t, exp)
+        elif kind == "cls_event":
+            begin()
+            if node[2] == "update":
+                world.W2.param.update(ev=True)
+            elif node[2] == "trigger":
+                world.W2.param.trigger("ev")
+            else:
+                world.W2.ev = True
+            window("cls_event", t, {})            # no watcher of the instances is concerned
+            if world.W2.ev is not False or world.W.ev is not False:
+                res.fail("C04.event_not_reset", f"class-level Event reads {world.W.ev!r} (base) / {world.W2.ev!r} (subclass) "
+                                                f"after {node!r}")
+            model.labels.add("class_level_event_through_subclass")
         elif kind == "slot":
             begin()
             which = node[2]
